@@ -505,8 +505,17 @@ pub fn check_kill(c: &KillCase) -> Result<KillOutcome, Failure> {
         .map_err(|e| Failure::new("harness-bug", format!("the script fails on the in-memory twin: {e}")))?;
         idx_done.extend(marks);
     }
-    let mut states = vec![Dump::empty().normalized()];
-    states.extend(twin.probe.history().into_iter().map(|d| d.normalized()));
+    // The twin is an in-memory replica: the order in which a working-set rebuild appends several
+    // newcomers follows the iteration order of its task map, which is arbitrary (and unspecified by
+    // the property), so working sets are compared as multisets here; positions are C15's and
+    // C16's business.
+    let canon = |d: Dump| {
+        let mut d = d.normalized();
+        d.working_set.sort();
+        d
+    };
+    let mut states = vec![canon(Dump::empty())];
+    states.extend(twin.probe.history().into_iter().map(canon));
 
     let dir = tempfile::TempDir::new().map_err(|e| Failure::new("infra", format!("{e}")))?;
     let db = dir.path().join("db");
@@ -600,8 +609,10 @@ pub fn check_kill(c: &KillCase) -> Result<KillOutcome, Failure> {
     } else {
         None
     };
-    let got = fresh_dump(&db)?;
+    let got_exact = fresh_dump(&db)?;
+    let got = canon(got_exact.clone());
     if let Some(got_ro) = got_ro {
+        let got = got_exact;
         if got_ro != got {
             return Err(Failure::new(
                 "kill-read-only-reopen-differs",
@@ -618,12 +629,14 @@ pub fn check_kill(c: &KillCase) -> Result<KillOutcome, Failure> {
         return Err(Failure::new(
             if anywhere.map(|a| a < lo).unwrap_or(false) { "kill-lost-committed-work" } else { "kill-partial-state" },
             format!(
-                "after SIGKILL with {done} actions reported complete (of {}), the database matches {} but must be one of the committed states {lo}..={hi} of the script\n got {got:?}",
+                "after SIGKILL with {done} actions reported complete (of {}), the database matches {} but must be one of the committed states {lo}..={hi} of the script\n got {got:?}\n committed state {lo}: {:?}\n committed state {hi}: {:?}",
                 c.script.actions.len(),
                 match anywhere {
                     Some(a) => format!("committed state #{a}"),
                     None => "no committed state of the script at all".to_string(),
-                }
+                },
+                states[lo],
+                states[hi]
             ),
         ));
     }
